@@ -31,11 +31,11 @@ def run(c):
         [[("read", 1, "none")], [("read", 2, "pos")], [("feed", [33]), ("close",)]],
         [[("read", 5, "pos")], [("feed", [17]), ("feed", [18])], [("empty",), ("close",)]],
     ]
-    progs = fixed + pipes.bp_programs(rnd, 12 if c.quick else 120)
+    progs = fixed + pipes.bp_programs(rnd, 12 if c.quick else 40)
     batch, meta = [], []
     for pi, prog in enumerate(progs):
         runs = 0
-        for ex in pipes.bp_explore(prog, "dfs", 2, 400 if c.quick else 3000, c.seed):
+        for ex in pipes.bp_explore(prog, "dfs", 2, 400 if c.quick else 1500, c.seed):
             runs += 1
             if ex.stuck:
                 raise Machinery("thread stuck in native code in a BufferedPipe scenario: %s" % ex.blocked)
@@ -43,8 +43,8 @@ def run(c):
             meta.append({"program": prog, "choices": ex.choices, "labels": ex.labels, "hang": ex.hang})
             c.case(key=("p%d" % pi, tuple(ex.choices)),
                    sample={"program": prog, "schedule": ex.labels, "events": ex.verdict} if runs == 3 and pi < 3 else None)
-    for pi, prog in enumerate(pipes.bp_programs(rnd, 10 if c.quick else 200)):
-        for ex in pipes.bp_explore(prog, "random", 0, 30 if c.quick else 100, c.seed + pi):
+    for pi, prog in enumerate(pipes.bp_programs(rnd, 10 if c.quick else 100)):
+        for ex in pipes.bp_explore(prog, "random", 0, 30 if c.quick else 60, c.seed + pi):
             batch.append({"events": ex.verdict})
             meta.append({"program": prog, "choices": ex.choices, "labels": ex.labels, "hang": ex.hang})
             c.case(key=("r%d" % pi, tuple(ex.choices)))
